@@ -523,6 +523,9 @@ class Impl:
     def c_sim_snap(self, a):
         return pst_str(self.sim.state) if self.five else st_str(self.sim.state)
 
+    def c_sim_started(self, a):
+        return b01(self.sim.has_started)
+
     def c_sim_arch(self, a):
         return st_str(self.sim.state)
 
